@@ -106,8 +106,8 @@ let run_expr (args : Sexp.t list) : Sexp.t =
     let code = xcompile Z0 e in
     let rec listing pos = function [] -> [] | i :: r -> sexp_of_instr pos i :: listing (Z.add pos (xisize i)) r in
     let spec = (match xceval consts locals e with Ok v -> L [A "ok"; sexp_of_value v] | Err _ -> L [A "err"] | _ -> L [A "undefined-behaviour"]) in
-    let mach = (match xmrun (C03.nat_of_int 100000) consts locals code (xcsize code) (XRunning (Z0, [])) with
-        | XRunning (_, [v]) -> L [A "ok"; sexp_of_value v]
+    let mach = (match xmrun (C03.nat_of_int 100000) consts code (xcsize code) (XRunning (Z0, locals, [])) with
+        | XRunning (_, _, [v]) -> L [A "ok"; sexp_of_value v]
         | XThrown _ -> L [A "err"]
         | _ -> L [A "stuck"]) in
     L [A "exprcomp"; L (A "code" :: listing Z0 code); spec; mach]
